@@ -18,7 +18,7 @@ FAMILY_OPS = {
                (6, "get"), (5, "set_s"), (4, "slice"), (5, "mask"), (4, "alias"), (4, "iop"), (3, "mv"), (3, "ro"), (6, "release"), (2, "gcp")],
     "array2d": [(6, "d_new"), (8, "d_item"), (8, "d_slice"), (7, "d_set_s"), (6, "d_set_a"), (5, "d_set_1d"), (5, "d_mask_get"),
                 (5, "d_mask_set"), (5, "d_iop"), (5, "d_comp"), (4, "d_ifelse"), (4, "d_binop"), (4, "elem_w"), (4, "d_bad"), (4, "release"), (2, "gcp")],
-    "varray": [(6, "v_new"), (8, "v_row"), (6, "v_slice"), (7, "v_mask"), (7, "v_set_row"), (8, "v_set_v"), (5, "v_set_m"), (5, "v_size"),
+    "varray": [(6, "v_new"), (8, "v_row"), (6, "v_slice"), (7, "v_mask"), (7, "v_set_row"), (8, "v_set_v"), (5, "v_set_m"), (5, "v_size"), (4, "v_sizeh"), (5, "vsz_set"), (3, "vsz_get"),
                (4, "v_resize"), (4, "v_ro"), (4, "v_bad"), (6, "get"), (5, "set_s"), (4, "iop"), (3, "ro"), (5, "mask"), (4, "alias"), (3, "comp"),
                (3, "slice"), (2, "mv"), (8, "release"), (3, "gcp")],
     "string": [(6, "s_new"), (9, "s_get"), (6, "s_slice"), (5, "s_mask"), (9, "s_set"), (5, "s_set_m"), (5, "s_set_v"), (4, "s_eq"),
@@ -34,7 +34,7 @@ def gen_family_op(r, fam, o, op, maxn, gen_slice):
         op["i"] = r.range(-6, 5)
     elif o in ("m_slice", "v_slice", "s_slice"):
         op["s"] = gen_slice(r, 5)
-    elif o in ("m_set_s", "m_set_v", "m_set_m", "v_set_row", "v_set_v", "s_set", "s_set_v", "v_size", "v_resize"):
+    elif o in ("m_set_s", "m_set_v", "m_set_m", "v_set_row", "v_set_v", "s_set", "s_set_v", "v_size", "v_resize", "vsz_set", "vsz_get"):
         op["idx"] = r.range(-6, 5) if r.chance(0.5) else gen_slice(r, 5)
         op["dlen"] = r.weighted([(8, 0), (1, 1), (1, -1)])
         op["k"] = r.below(64)
@@ -132,6 +132,12 @@ class FamilyMixin:
                 for c in range(len(row)):
                     if self.pack_vals(t, t.flat(row[c])) != self.pack_vals(t, rowstore.vals[c]):
                         raise V("element-value", "va[%d][%d] reads %r, model %r" % (k, c, t.flat(row[c]), rowstore.vals[c]))
+        elif h.kind == "vsz":
+            for k, ri in enumerate(h.idx):
+                sk = h.real[k]
+                sk = sk if isinstance(sk, int) else sk[0]
+                if sk != len(h.store.vals[ri].vals):
+                    raise V("varray-row-size", "size_helper[%d] %d, model %d" % (k, sk, len(h.store.vals[ri].vals)))
         elif h.kind == "str":
             if len(h.real) != len(h.idx):
                 raise V("len", "len() %d, model %d" % (len(h.real), len(h.idx)))
@@ -966,6 +972,73 @@ class FamilyMixin:
                         row[c] = self.to_real(h.tname, v)
                         rs.vals.append(v)
                     del row
+
+    # the size helper kept as an object of its own: it must follow the variable array it came from (its read-only state
+    # at the time of the write, not at the time the helper was fetched) and keep the storage alive
+    def op_v_sizeh(self, op):
+        h = self.pick_va(op)
+        if not h:
+            return False
+        self.sig_ctx = ("varray-size-helper", h.hkind(), h.vtype)
+        got = self.call(getattr, h.real, "size")
+        self.expect(got, False, "va.size")
+        nh = self.Handle(got[1], "vsz", h.tname, h.store, h.idx, True, h.masked)
+        nh.vtype, nh.src = h.vtype, h
+        self.inc("probe.size_helper_kept")
+        self.add(nh)
+
+    def op_vsz_get(self, op):
+        z = self.pick(op["h"], lambda x: x.kind == "vsz")
+        if not z:
+            return False
+        self.sig_ctx = ("varray-size-helper-get", z.src.hkind(), z.vtype)
+        n = len(z.idx)
+        sel = self.rowsel(n, op["idx"])
+        got = self.call(z.real.__getitem__, self.key_of(op["idx"]))
+        self.expect(got, sel is None, "size_helper[%r]" % (op["idx"],))
+        if sel is None:
+            return
+        want = [len(z.store.vals[z.idx[k]].vals) for k in sel]
+        res = got[1]
+        have = [res] if isinstance(res, int) else [res[i] for i in range(len(res))]
+        if have != want:
+            raise self.Violation("varray-row-size", "size_helper[%r] is %r, model %r" % (op["idx"], have, want))
+
+    def op_vsz_set(self, op):
+        z = self.pick(op["h"], lambda x: x.kind == "vsz")
+        if not z:
+            return False
+        src = z.src
+        self.sig_ctx = ("varray-size-helper-set", src.hkind(), z.vtype)
+        n = len(z.idx)
+        sel = self.rowsel(n, op["idx"])
+        newsize = op["k"] % 5
+        got = self.call(z.real.__setitem__, self.key_of(op["idx"]), newsize)
+        bad = sel is None or not src.writable
+        if not src.writable:
+            self.inc("fault.write_via_readonly")
+            if src.real is None:
+                self.inc("probe.size_helper_of_released_readonly_array")
+        self.expect(got, bad, "size_helper[%r] = %d (array writable %s)" % (op["idx"], newsize, src.writable))
+        if not bad:
+            self.stale_rows([z.store.vals[z.idx[k]] for k in sel])
+            for k in sel:
+                rs = z.store.vals[z.idx[k]]
+                old = len(rs.vals)
+                rs.vals = rs.vals[:newsize]
+                if newsize > old:
+                    if src.real is not None:
+                        row = src.real[k]
+                        for c in range(old, newsize):
+                            v = self.fresh_value(z.tname, op["v"] * 32 + k * 5 + c + 23)
+                            row[c] = self.to_real(z.tname, v)
+                            rs.vals.append(v)
+                        del row
+                    else:
+                        # the array object is gone (only the helper keeps the storage): the new elements cannot be given
+                        # defined values through a row, so shrink back to keep the model exact
+                        z.real[k] = old
+                        rs.vals = rs.vals[:old]
 
     def op_v_ro(self, op):
         h = self.pick_va(op)
